@@ -339,7 +339,7 @@ func (tcs *tableCheckers) sendWork() {
 			tcs.error(e, "")
 		}
 	}()
-	if tcs.firstTable != "" {
+	if tcs.firstTable != "" && tcs.state.Meta.GetRoInfo(tcs.firstTable) != nil {
 		tcs.work <- tcs.firstTable
 	}
 	for ts := range tcs.state.Meta.Tables() {
